@@ -797,6 +797,9 @@ def r11_4(prog, rep, rid='R11.4'):
             d = call_name(c)
             if d.startswith('self._backend.'):
                 delegated.add(d.split('.')[-1])
+                # R11.3 asks the facade to delegate to the same name; the
+                # backends are asked for the facade's name in any case
+                delegated.add(m.name)
     for b in backends:
         for op in sorted(delegated):
             m = prog.find_method(b, op)
@@ -1183,6 +1186,57 @@ def r11_7(prog, rep, rid='R11.7'):
 
 
 # ------------------------------------------------------------------------------
+# sweep (thorough): every call on a StagingHelper anywhere in the package names
+# an operation the facade has (exact: anything else is an AttributeError)
+#
+def r11_4s(prog, rep, rid='R11.4s'):
+    rep.rule(rid, 'sweep: every method called on a StagingHelper object in the '
+             'package exists in the facade', minimum=12)
+    helper = prog.cls(HELPER, 'StagingHelper')
+
+    def is_helper_call(mod, v):
+        if not isinstance(v, ast.Call):
+            return False
+        r = prog.resolve(mod, v.func)
+        return bool(r) and r[0] == 'class' and r[1] is helper
+
+    for mod in prog.modules.values():
+        funcs = list(mod.funcs.values())
+        for c in mod.classes.values():
+            funcs += list(c.methods.values())
+        attrs = set()
+        for f in funcs:
+            for n in walk(f.node, nested=True):
+                if isinstance(n, ast.Assign) and is_helper_call(mod, n.value):
+                    for t in n.targets:
+                        if dotted(t).startswith('self.'):
+                            attrs.add((f.cls, dotted(t)))
+        for f in funcs:
+            local = set()
+            for n in walk(f.node, nested=True):
+                if isinstance(n, ast.Assign) and is_helper_call(mod, n.value):
+                    for t in n.targets:
+                        if isinstance(t, ast.Name):
+                            local.add(t.id)
+            for c in calls_in(f.node, nested=True):
+                if not isinstance(c.func, ast.Attribute):
+                    continue
+                recv = dotted(c.func.value)
+                if recv in local or (recv.startswith('self.') and f.cls and any(
+                        k is not None and a == recv and k in prog.mro(f.cls)
+                        for k, a in attrs)):
+                    rep.saw(f)
+                    rep.check(prog.find_method(helper, c.func.attr) is not None,
+                              rid, f, '%s exists in StagingHelper'
+                              % short(c.func, 50), construct=c,
+                              message='%s calls %s(), which StagingHelper does '
+                              'not have' % (f.qual, short(c.func, 50)),
+                              loc=f.loc(c),
+                              history='any call of %s reaching this statement '
+                              'raises AttributeError' % f.qual)
+
+
+# ------------------------------------------------------------------------------
 #
 def run(prog, rep, tier):
     rep.decided = ('over the finite domain of the six action constants: every '
@@ -1218,6 +1272,8 @@ def run(prog, rep, tier):
     r11_5(prog, rep)
     r11_6(prog, rep)
     r11_7(prog, rep)
+    if tier == 'thorough':
+        r11_4s(prog, rep)
 
 
 # ------------------------------------------------------------------------------
